@@ -254,6 +254,9 @@ fn check(case: &Case, full_limit: usize) -> CaseResult {
     let raw: &RawVector = bv.as_ref();
     ensure_eq!(raw.len(), n, "BitVector.as_ref", "raw length");
     ensure_eq!(raw.count_ones(), m, "BitVector.as_ref", "raw count_ones");
+    // and converting back gives the raw vector the bits were pushed into
+    let back = RawVector::from(bv.clone());
+    ensure!(back == raw_by_push_bit(&bits), "RawVector.from(BitVector)", "RawVector::from(BitVector) differs from the {} bits pushed one by one (route {})", n, case.route % NUM_ROUTES);
 
     classify_bits(&bits, &mut rep.classes);
     rep.class(if n <= full_limit { "plan:all-arguments" } else { "plan:edges+sampled" });
